@@ -169,6 +169,7 @@ def run(chk: Check):
     n_base = 4 if chk.tier == "quick" else 40
     threads0 = {t.ident for t in threading.enumerate()}
     exhaustive_spaces = []
+    slow_env_budget = [6 if chk.tier == "quick" else 60]
     for bi in range(n_base):
         sched = "rr" if bi % 2 == 0 else "rl"
         base = base_scn(rng, sched)
@@ -197,15 +198,31 @@ def run(chk: Check):
         for fault in space:
             scn = copy.deepcopy(base)
             scn.faults = [fault]
+            if sched == "rl" and tuple(fault) in (("S", 0), ("M", 0), ("L", 0), ("B", 0)) and slow_env_budget[0] > 0:
+                # a user environment whose reset_state() is slower than the failing first batch: the agent thread is still in reset()
+                # when the session is torn down
+                scn.slow_env_reset = 0.15
+                slow_env_budget[0] -= 1
+                chk.count("rl:first_batch_fails_while_the_environment_is_still_resetting")
             lines, info = run_quiet(scn)
             first = lines[1]
             raised = first.startswith("raise:")
             kind = {"S": "sampler", "M": "model", "L": "loss", "B": "sampler"}[fault[0]]
+            hung = [ln for ln in lines if ln.startswith("hang:")]
+            if hung:
+                # calibrate() never came back (watchdog): nothing was propagated and the threads of the calibration are still there
+                chk.case([scn_json(base), fault, "hang"], True, {"scheduler": sched, "fault": fault, "outcome": "calibrate() did not return"})
+                chk.count(f"{sched}:{fault[0]}"); chk.count("calibrate_did_not_return")
+                chk.fail(f"{sched} scheduler, {kind} failing at its invocation {fault[1]}" + (" while the environment is still resetting" if scn.slow_env_reset else "")
+                         + ": calibrate() did not return within the watchdog (the exception is not propagated, the calibration's threads are left blocked)",
+                         {"case": {"scn": {**scn_json(base), "slow_env_reset": scn.slow_env_reset}, "fault": list(fault)}})
+                threads0 |= {t.ident for t in threading.enumerate()}
+                continue
             hf = hist_fields(first)
             chk.case([scn_json(base), fault], int(hf["b"]) >= 1 and raised,
                      {"scheduler": sched, "fault": fault, "first_call": first[:60], "batches_before_fault": hf["b"], "second_call": lines[2][:40]})
             chk.count(f"{sched}:{fault[0]}"); chk.count("raised_in_first_call" if raised else "raised_in_second_call_or_not")
-            case = {"case": {"scn": scn_json(base), "fault": list(fault)}}
+            case = {"case": {"scn": {**scn_json(base), "slow_env_reset": scn.slow_env_reset}, "fault": list(fault)}}
             # the fault index may fall into the second call (calibrate(1)): then the first call must equal the fault-free one
             if info.get("swallowed"):
                 chk.fail(f"an exception injected into a {kind} call was raised inside calibrate() (operation {info['swallowed'][0]}), which returned normally instead of propagating it", case)
